@@ -303,7 +303,7 @@ class Walker:
                     if qs is not None:
                         mapping = {("param", i + 1): a for i, a in enumerate(args)}
                         for q in qs:
-                            q2 = subst_path(q, mapping, bi)
+                            q2 = subst_path(q, mapping, bi, site=(fn.id, bi))
                             ev2 = list(events) + [("inlined", inl, args, bi)] + q2.events
                             c2 = conds + q2.conds
                             if q2.end != "return":
@@ -597,8 +597,31 @@ def short(e, depth=12):
     return t
 
 
-def subst_path(p, mapping, at_block=None):
+def resite(e, site, memo):
+    """give the call expressions of an inlined body the caller's call site (kept unique per callee block), so that
+    site-based identity ("a distinct draw") and block-based placement ("inside the loop") refer to the caller"""
+    if not isinstance(e, tuple):
+        return e
+    k = id(e)
+    if k in memo:
+        return memo[k]
+    if e[0] == "call":
+        r = ("call", e[1], e[2], tuple(resite(a, site, memo) for a in e[3]), (site[0], site[1]) + tuple(e[4]))
+    elif e[0] in ("param", "const", "upvar", "cparam", "fnitem", "unknown"):
+        r = e
+    else:
+        r = tuple(resite(x, site, memo) if isinstance(x, tuple) else x for x in e)
+    memo[k] = r
+    return r
+
+
+def subst_path(p, mapping, at_block=None, site=None):
     """a callee path with its parameters replaced by the caller's argument expressions"""
+    if site is not None:
+        m2 = {}
+        p = Path([(resite(c[0], site, m2), c[1], c[2]) for c in p.conds],
+                 [tuple(resite(x, site, m2) if isinstance(x, tuple) else x for x in e) for e in p.events],
+                 resite(p.ret, site, m2) if p.ret is not None else None, p.end, p.blocks)
     memo = {}
     ev = []
     for e in p.events:
